@@ -209,15 +209,16 @@ def boxLoop (ws : WS) (split : Split) (rs maxX : Rat) (skip : Option Skip) :
         split child posX' (maxX - rs) subSkip
       else .ok out0).bind fun out =>
     let pres1 := pres || out.preserved
-    -- `if last_letter is True: last_letter = ' '` … `elif box.style['white_space'] in ('pre', 'nowrap'):
-    -- can_break = False` (an `elif`: not consulted after a collapsed space) … `can_break_text(last_letter + first)`
-    let canBreak := match lastL with
+    -- `if last_letter is True: last_letter = ' '` … `if box.style['white_space'] in ('pre', 'nowrap'): can_break =
+    -- False` (an `if` of its own since fix fd6f32a: also consulted after a collapsed space) …
+    -- `can_break_text(last_letter + first)`
+    let canBreak := if ws.noBreakBetween then false else
+      match lastL with
       | .collapsed =>
         (match out.first with
          | some b => canBreakPair ' ' b
          | none => false)
       | .ch a =>
-        if ws.noBreakBetween then false else
         (match out.first with
          | some b => canBreakPair a b
          | none => false)
